@@ -477,6 +477,12 @@ Definition c01_step (s : ost) (o : op) (x : obs) : sv :=
 (* success only with a correct PEC; a bad PEC produces no response bytes and changes no EID *)
 Definition c02_step (s : ost) (o : op) (x3 : obs3) : sv :=
   let x := fst x3 in
+  match x with
+  | XBad =>
+      (* the harness ran the same history without the bad-PEC packets on a twin context and this
+         observation differs from the twin's: a rejected packet changed a later output *)
+      sv_of false 9
+  | _ =>
   match o with
   | ODecode p =>
       if (1 <=? length p)%nat then
@@ -493,6 +499,7 @@ Definition c02_step (s : ost) (o : op) (x3 : obs3) : sv :=
                end && (fst (snd x3) =? fst (os_eids s)) && (snd (snd x3) =? snd (os_eids s))) 2
       else sv_triv
   | _ => sv_triv
+  end
   end.
 
 (* ================================================================ C11 *)
